@@ -1,6 +1,7 @@
 // Replay runner for C16 (links the REAL dora-parser of the working tree): parses generated texts and
 // checks that the green tree reproduces the text byte for byte, node lengths add up, error spans lie
 // inside the text, and nothing panics. Finds concrete failing inputs for failed Verus obligations.
+use dora_parser::ast::{SyntaxElement, SyntaxNode};
 use dora_parser::{lex, GreenElement, GreenNode, Parser, TokenKind};
 use std::sync::Arc;
 use std::time::{Duration, Instant};
@@ -40,6 +41,34 @@ fn check_lengths(node: &GreenNode) -> Result<u32, String> {
     Ok(sum)
 }
 
+/// red tree: node and token spans tile the file without gap or overlap (children start where the previous sibling
+/// ended, the first at the parent's start, the last ends at the parent's end); the text of every token is the slice
+/// of the source at its span
+fn check_tiling(node: &SyntaxNode, text: &str) -> Result<(), String> {
+    let fs = node.full_span();
+    let mut at = fs.start();
+    for el in node.children_with_tokens() {
+        let sp = match &el { SyntaxElement::Node(n) => n.full_span(), SyntaxElement::Token(t) => t.span() };
+        if sp.start() != at {
+            return Err(format!("child of {:?} starts at {} but its predecessor ended at {}", node.green().syntax_kind(), sp.start(), at));
+        }
+        match &el {
+            SyntaxElement::Node(n) => check_tiling(n, text)?,
+            SyntaxElement::Token(t) => {
+                let (a, b) = (sp.start() as usize, sp.end() as usize);
+                if b > text.len() || !text.is_char_boundary(a) || !text.is_char_boundary(b) || &text[a..b] != t.text() {
+                    return Err(format!("token at {}..{} has text {:?} which is not the source slice", a, b, t.text()));
+                }
+            }
+        }
+        at = sp.end();
+    }
+    if at != fs.end() {
+        return Err(format!("children of {:?} end at {} but the node ends at {}", node.green().syntax_kind(), at, fs.end()));
+    }
+    Ok(())
+}
+
 fn check_text(text: &str) -> Option<String> {
     let owned = Arc::new(text.to_string());
     let r = std::panic::catch_unwind(|| {
@@ -63,6 +92,8 @@ fn check_text(text: &str) -> Option<String> {
         }
         if green.text_length() as usize != text.len() { return Err("root length differs from the text length".to_string()); }
         check_lengths(green)?;
+        if root.full_span().start() != 0 || root.full_span().end() as usize != text.len() { return Err("root span is not the whole text".to_string()); }
+        check_tiling(&root, text)?;
         // every lexed token appears exactly once in the tree
         fn count(n: &GreenNode) -> usize { n.children().iter().map(|c| match c { GreenElement::Token(_) => 1, GreenElement::Node(n) => count(n) }).sum() }
         let c = count(green);
